@@ -471,14 +471,14 @@ def run(prog, rep, tier='quick', config='default'):
     # ------------------------------------------------------------------ R11f
     n = 0
     for fn in prog.product_fns():
-        if fn.name.startswith('portfolio::io::tx_csv::'):
-            continue
+        if fn.file == writer.file:
+            continue      # the module of the table writer itself (wherever it lives)
         wr = [c for c in fn.calls if re.search(r'csv::Writer::<W>::(write_record|serialize|write_field)$', c.callee)]
         if not wr:
             continue
         n += 1
         has_csvtx = any('model::tx::CsvTx' in t for t in fn.ty.values())
-        uses_table = any(c.callee.endswith('tx_csv::txs_to_csv_table') for c in fn.calls)
+        uses_table = any(c.callee == writer.name for c in fn.calls)
         if has_csvtx and not uses_table:
             rep.violation('R11f', '%s|writes-csvtx-directly' % fn.name, where=wr[0].where(), fn=fn.name,
                           detail='writes CSV records from CsvTx values without going through txs_to_csv_table (a second, diverging writer)')
